@@ -9,8 +9,9 @@ def run_one(scn, timeout=120, keep=None, kill_after=None):
     """returns (report dict | None, stderr tail). `keep` = directory to reuse (restart scenarios); `kill_after` = seconds until SIGKILL"""
     d = keep or tempfile.mkdtemp(prefix="verif-e2e-", dir=SCRATCH)
     try:
+        os.makedirs(os.path.join(d, "tmp"), exist_ok=True)
         p = subprocess.Popen([os.path.join(core.BUILD, "hbin"), "e2e"], cwd=d, stdin=subprocess.PIPE, stdout=subprocess.PIPE, stderr=subprocess.PIPE,
-                             env=dict(os.environ, GOMAXPROCS=str(scn.get("gomaxprocs", 4)), GOMEMLIMIT="2GiB"))
+                             env=dict(os.environ, GOMAXPROCS=str(scn.get("gomaxprocs", 4)), GOMEMLIMIT="2GiB", TMPDIR=os.path.join(d, "tmp")))
         line = (json.dumps(dict(scn, op="run")) + "\n").encode()
         if kill_after is not None:
             p.stdin.write((json.dumps(dict(scn, op="run", announceStart=True)) + "\n").encode()); p.stdin.flush()
